@@ -50,8 +50,8 @@ def rule_comutation(ck):
     net = repo.cls("ChargingNetwork", module="charging_network.py")
     n = 0
     for name, m in sorted(net.methods.items()):
-        if name in ("_from_dict", "_to_dict"):
-            continue
+        if name in ("_from_dict", "_to_dict") or m.qual in repo.inlined_helpers:
+            continue              # a helper introduced later is seen through the methods it was spliced into
         w = writes_of(repo, m)
         if not w:
             continue
@@ -116,13 +116,50 @@ def rule_add(ck):
         before = [n for n, k, p, t in writes if r in cfg.reach(n)]
         ck.require(not before, "C12.R3", f, r.stmt, ok="a rejected constraint has changed nothing",
                    bad=f"`{src(before[0].stmt, 60) if before else ''}` can execute before the unknown-station rejection", sink="add:write-before-raise")
-        ok = any((c := cmp_norm(fl.expand(a, r), t)) and c[1] == "not in" and canon(c[2]) in ("self._EVSEs", "self.station_ids", "list(self._EVSEs.keys())")
-                 for a, t in facts_at(fl, r))
-        ck.require(ok, "C12.R3", f, r.stmt, ok="rejects a station that is not registered", bad="the rejection does not test membership in the registered stations",
+        REG = ("self._EVSEs", "self.station_ids", "list(self._EVSEs.keys())", "self._EVSEs.keys()")
+        SRC = (f"{cur}.index", f"{cur}.keys()", cur)
+
+        def unregistered_of(e):
+            """e is the collection of the Current's stations that are not registered: [s for s in cur.index if s not in REG]"""
+            from ..flow import _strip_seq
+            e = _strip_seq(e)
+            if isinstance(e, (ast.ListComp, ast.GeneratorExp, ast.SetComp)) and len(e.generators) == 1:
+                g = e.generators[0]
+                if canon(_strip_seq(g.iter)) in SRC and isinstance(g.target, ast.Name) and dotted(e.elt) == g.target.id and len(g.ifs) == 1:
+                    c = cmp_norm(g.ifs[0], True)
+                    return bool(c) and c[1] == "not in" and dotted(c[0]) == g.target.id and canon(c[2]) in REG
+            return False
+        test_ok = all_ok = False
+        # (1) a loop over the Current's stations with the membership test on the loop variable
+        for a, t in facts_at(fl, r):
+            c = cmp_norm(fl.expand(a, r), t)
+            if c and c[1] == "not in" and canon(c[2]) in REG:
+                test_ok = True
+                all_ok = all_ok or canon(c[0]) in tuple(f"__elem__({s_})" for s_ in SRC)
+        # (2) the collection of unregistered stations is built first and the rejection is taken when it is non-empty
+        for a, t in facts_at(fl, r):
+            e = fl.expand(a, r)
+            base = e
+            neg = False
+            while isinstance(base, ast.UnaryOp) and isinstance(base.op, ast.Not):
+                base, neg = base.operand, not neg
+            if isinstance(base, ast.Call) and call_name(base) == "len" and base.args:
+                base = base.args[0]
+            c = cmp_norm(e, t)
+            if c and isinstance(c[0], ast.Constant) and c[0].value == 0 and c[1] in ("<", "!=") and isinstance(c[2], ast.Call) and call_name(c[2]) == "len" and c[2].args:
+                base, neg = c[2].args[0], False
+                tt = True
+            else:
+                tt = (t != neg)
+            if tt and unregistered_of(base):
+                test_ok = all_ok = True
+        # (3) iterating the collection of unregistered stations and raising on the first one
+        for tn, lab in cfg.edges_dominating(r):
+            if tn.kind == "for" and lab is True and unregistered_of(fl.expand(tn.stmt.iter, tn)):
+                test_ok = all_ok = True
+        ck.require(test_ok, "C12.R3", f, r.stmt, ok="rejects a station that is not registered", bad="the rejection does not test membership in the registered stations",
                    sink="add:reject-test")
-        loops = [t for t, lab in cfg.edges_dominating(r) if t.kind == "for" and lab is True]
-        ok = bool(loops) and canon(fl.expand(loops[-1].stmt.iter, loops[-1])) in (f"{cur}.index", f"{cur}.keys()", cur)
-        ck.require(ok, "C12.R3", f, loops[-1].stmt.iter if loops else r.stmt, ok="every station of the Current is checked",
+        ck.require(all_ok, "C12.R3", f, r.stmt, ok="every station of the Current is checked",
                    bad="the rejection does not range over every station of the new Current", sink="add:reject-all")
     # R2 stores
     mstores = [n for n, k, p, t in writes if p == "self.constraint_matrix" and k == "assign"]
@@ -184,18 +221,39 @@ def rule_add(ck):
     nstores = [n for n, k, p, t in writes if p == f"{cur}.name"]
     ck.require(len(nstores) == 1 and canon(nstores[0].stmt.value) == name, "C12.R2", f, nstores[0].stmt if nstores else f"{cur}.name = {name}",
                ok="the row is labelled with the constraint's name", bad="the Current is not labelled with the constraint name before it is appended", sink="add:label")
-    tests = [n for n in cfg.nodes if n.kind == "test" and (c := cmp_norm(n.expr)) and c[1] == "in" and dotted(c[0]) == name and canon(c[2]) == "self.constraint_index"]
+    # membership of the (possibly defaulted, possibly renamed through temporaries) name in the network's constraint list, either polarity
+    tests = []
+    from ..flow import edge_facts as _ef
+    for n in cfg.nodes:
+        if n.kind != "test":
+            continue
+        for a_, t_ in _ef(fl.expand(n.expr, n), True):
+            c = cmp_norm(a_, True)
+            if c and c[1] in ("in", "not in") and canon(c[2]) == "self.constraint_index":
+                tests.append(n)
     ck.require(bool(tests), "C12.R2", f, "if name in self.constraint_index", ok="duplicate names detected", bad="no duplicate-name check", sink="add:dup-test")
     if nstores and tests:
-        use = nstores[0]
-        defs = [cfg.entry] + [n for n in cfg.nodes if n.kind == "stmt" and isinstance(n.stmt, ast.Assign) and any(dotted(t) == name for t in n.stmt.targets)]
-        for d in defs:
-            if d is not cfg.entry and not cfg.dominates(d, use) and use not in cfg.reach(d):
+        # on every path the label that is stored was itself looked up in the network's name list (and renamed on the branch where it was
+        # found): decision table of add_constraint, values expanded along each path
+        from .. import pathtab
+        seen_bad = set()
+        for r in pathtab.table(fl, limit=20000):
+            lab = [(k, st, nd) for kind, k, st, nd in r.effects if kind == "store" and k.startswith(f"{cur}.name = ")]
+            if not lab:
                 continue
-            ok = use not in cfg.reach(d, avoid=set(tests)) or d in set(tests)
-            ck.require(ok, "C12.R2", f, d.stmt if d.stmt is not None else f"parameter {name}", ok="this name passes the duplicate check before it is used",
-                       bad=f"a name defined by `{src(d.stmt, 60) if d.stmt is not None else name}` can reach the name list without the duplicate check: "
-                           f"two rows may carry the same name and remove/update then act on the wrong one", sink=f"add:dup-path:{'param' if d is cfg.entry else 'auto'}")
+            val = lab[-1][0].split(" = ", 1)[1]
+            subjects = []
+            for k, t, a_, nd in r.facts:
+                c = pathtab.split_key(k)
+                if c and c[1] == "in" and c[2] == "self.constraint_index":
+                    subjects.append((c[0], t))
+            ok = any((not t and val == subj) or (t and subj in val and val != subj) for subj, t in subjects)
+            if not ok and val not in seen_bad:
+                seen_bad.add(val)
+                ck.violation("C12.R2", f, lab[-1][1], f"the label `{val[:60]}` reaches the name list on a path that did not look it up there (or kept it although it was "
+                             f"found): two rows may carry the same name and remove/update then act on the wrong one", sink="add:dup-path")
+        if not seen_bad:
+            ck.holds("C12.R2", f, "label uniqueness", "every stored label was checked against (or renamed because of) the existing names")
     # update_constraint = remove(name) then add(current, limit, name=new_name)
     up = repo.method(net, "update_constraint")
     ul = flow_of(up)
@@ -303,6 +361,9 @@ def rule_algebra(ck):
     if init is None:
         raise AnalysisError("Current.__init__ not found")
     il = flow_of(init)
+    starred = [c for n, c in calls_in(il, "__init__") if any(isinstance(a, ast.Starred) for a in c.args) or any(k.arg is None for k in c.keywords)]
+    if starred and not [c for n, c in calls_in(il, "__init__") if c.args and isinstance(c.args[0], ast.DictComp)]:
+        raise AnalysisError("Current.__init__: the Series is constructed through *args / **kwargs computed elsewhere (construction idiom not recognised)")
     ones = [c for n, c in calls_in(il, "__init__") if c.args and isinstance(c.args[0], ast.DictComp)]
     ok = any(isinstance(c.args[0].value, ast.Constant) and c.args[0].value.value == 1 for c in ones)
     ck.require(ok, "C12.R5", init, ones[0] if ones else "Current(list of ids)", ok="a list of ids means coefficient 1 each", bad="Current(list) does not give each id coefficient 1",
